@@ -25,7 +25,7 @@ def n_worlds(ctx):
     return 160 if ctx.tier == "quick" else 2000
 
 
-def corpus_worlds(pid_dirs=("C05", "C07", "C10")):
+def corpus_worlds(pid_dirs=("C05", "C07", "C10", "S-sim")):
     out = []
     for d in pid_dirs:
         p = os.path.join(core.ROOT, "corpus", d)
@@ -50,7 +50,10 @@ def gen_worlds(seed, n):
     k = 0
     while len(ws) < n:
         if len(ws) >= n - n_plan:
-            w = simgen.gen_planner_world(rng, plan[k % len(plan)])
+            if k % 6 == 5:
+                w = simgen.gen_tight_world(rng)      # back-to-back plans with exactly tight deadlines
+            else:
+                w = simgen.gen_planner_world(rng, plan[k % len(plan)])
             k += 1
         elif len(ws) % 12 == 7:
             w = simgen.gen_clockwork_world(rng)       # batches and profile loading: monitors only (not fed to the machine)
